@@ -1,79 +1,24 @@
-(* C10: model of FailureSlicer.getStateToCopy (call.py) and of the FailureConstraint that the receiving
-   ErrorUnslicer enforces, built on the TRANSLATED `truncate` and the limits read from the source (gen/FailureGen.v). *)
+(* C10: FailureSlicer.getStateToCopy (call.py) as TRANSLATED into gen/FailureGen.v (get_state_src, on the translated `truncate`),
+   and the model of the FailureConstraint that the receiving ErrorUnslicer enforces, with the limits read from the source. *)
 From Coq Require Import ZArith List String Bool.
 Import ListNotations.
 Require Import Verif.lib.PyLite Verif.lib.Utf8 Verif.gen.FailureGen.
 Local Open Scope Z_scope.
 
-Definition text := list Z.      (* a Python str: code points *)
+(* text, exc, fstate, encode_text, trunc_field, map_res, render_safe / render_str and get_state_src -- FailureSlicer.getStateToCopy
+   executed symbolically statement by statement -- are GENERATED (gen/FailureGen.v). *)
 
-(* the text -> bytes step of truncate (error handler read from the source): "strict" raises for lone surrogates,
-   "backslashreplace" escapes them *)
-Definition encode_text (t : text) : res (list Z) :=
-  match text_encode_errors with
-  | Strict => if forallb scalarb t then Ok (utf8 t) else Exc "UnicodeEncodeError"%string
-  | BackslashReplace => Ok (utf8 (escape t))
-  end.
-
-(* six.ensure_binary(truncate(s, limit)) for a str s; `truncate` itself only encodes a non-empty s *)
-Definition trunc_field (t : text) (limit : Z) : res (list Z) :=
-  match encode_text t with
-  | Exc e => Exc e
-  | Ok b => truncate b limit
-  end.
-
-(* what getStateToCopy reads from the Failure *)
-Record exc := {
-  e_type : text;                 (* reflect.qual(obj.type) *)
-  e_str : res text;              (* str(obj.value): an exception class may make it raise *)
-  e_fallback : text;             (* what reflect.safe_str(obj.value) returns when str() raises *)
-  e_stack : text;                (* obj.getTraceback() *)
-  e_parents : list text          (* obj.parents *)
-}.
-
-Record fstate := { s_type : list Z; s_value : list Z; s_traceback : list Z; s_parents : list (list Z) }.
-
-(* if len(tb) > 1900: tb = tb[:700] + marker + tb[-1200:]     (characters) *)
+(* if len(tb) > 1900: tb = tb[:700] + marker + tb[-1200:]     (characters): the specification's name for the elision step *)
 Definition elide (tb : text) : text :=
   if Z.of_nat (List.length tb) >? elide_threshold
   then py_slice tb None (Some elide_head) ++ elide_marker ++ py_slice tb (Some (- elide_tail)) None
   else tb.
 
-Fixpoint map_res {A B} (f : A -> res B) (l : list A) : res (list B) :=
-  match l with
-  | [] => Ok []
-  | x :: r => match f x with
-              | Exc e => Exc e
-              | Ok y => match map_res f r with Exc e => Exc e | Ok ys => Ok (y :: ys) end
-              end
-  end.
-
 (* state['value'] = str(obj.value)  or  reflect.safe_str(obj.value), whichever the source uses *)
-Definition render (e : exc) : res text :=
-  if value_rendering_is_safe then Ok (match e_str e with Ok v => v | Exc _ => e_fallback e end) else e_str e.
+Definition render (e : exc) : res text := if value_rendering_is_safe then render_safe e else render_str e.
 
-Definition get_state (unsafe : bool) (e : exc) : res fstate :=
-  match render e with
-  | Exc t => Exc t
-  | Ok v =>
-    match trunc_field v trunc_limit_value with
-    | Exc t => Exc t
-    | Ok bv =>
-      match trunc_field (e_type e) trunc_limit_type with
-      | Exc t => Exc t
-      | Ok bt =>
-        let tb := if unsafe then e_stack e else default_traceback in
-        match trunc_field (elide tb) trunc_limit_traceback with
-        | Exc t => Exc t
-        | Ok btb =>
-          match map_res (fun p => trunc_field p trunc_limit_parents) (e_parents e) with
-          | Exc t => Exc t
-          | Ok ps => Ok {| s_type := bt; s_value := bv; s_traceback := btb; s_parents := ps |}
-          end
-        end
-      end
-    end
-  end.
+(* the model of getStateToCopy IS the translated function *)
+Definition get_state (unsafe : bool) (e : exc) : res fstate := get_state_src unsafe e.
 
 (* ---- the receiving side: ByteStringConstraint(n) = the STRING token's size test (Constraint.checkToken)
         and the object test (ByteStringConstraint.checkObject), both with the operator read from the source *)
